@@ -427,6 +427,96 @@ impl Family for AliasGraphs {
     }
 }
 
+/// Alias graphs with branching: 3 aliases whose targets are a primitive, an alias, Sequence<alias>, or a two-armed
+/// wrapper Result<alias, alias> / Dictionary<int32, Result<alias, alias>> (all 9 + 9 arm assignments), so that the
+/// same alias is reached along two branches of one expansion (a diamond is acyclic) as well as along real loops.
+pub struct AliasDiamonds;
+const AD_TARGETS: u64 = 1 + 3 + 3 + 9 + 9 + 9;
+impl AliasDiamonds {
+    /// (type text, aliases it mentions)
+    fn target(c: u64) -> (String, Vec<usize>) {
+        match c {
+            0 => ("string".into(), vec![]),
+            1..=3 => (format!("A{}", c - 1), vec![(c - 1) as usize]),
+            4..=6 => (format!("Sequence<A{}>", c - 4), vec![(c - 4) as usize]),
+            7..=15 => {
+                let (a, b) = (((c - 7) / 3) as usize, ((c - 7) % 3) as usize);
+                (format!("Result<A{a}, A{b}>"), vec![a, b])
+            }
+            16..=24 => {
+                let (a, b) = (((c - 16) / 3) as usize, ((c - 16) % 3) as usize);
+                (format!("Dictionary<int32, Result<A{a}, Sequence<A{b}>>>"), vec![a, b])
+            }
+            _ => {
+                // an alias in KEY position (whether it is a legal key type is another rule: see `run`)
+                let (a, b) = (((c - 25) / 3) as usize, ((c - 25) % 3) as usize);
+                (format!("Dictionary<A{a}, A{b}>"), vec![a, b])
+            }
+        }
+    }
+    fn decode(idx: u64) -> (String, Vec<Vec<usize>>) {
+        let mut x = idx % AD_TARGETS.pow(3);
+        let mut text = String::from("module G\n");
+        let mut adj = vec![];
+        for i in 0..3 {
+            let (t, m) = Self::target(x % AD_TARGETS);
+            x /= AD_TARGETS;
+            text.push_str(&format!("typealias A{i} = {t}\n"));
+            adj.push(m);
+        }
+        if idx >= AD_TARGETS.pow(3) {
+            text.push_str("struct U { a: A0 b: A2? }\n");
+        }
+        (text, adj)
+    }
+}
+impl Family for AliasDiamonds {
+    fn name(&self) -> String {
+        format!("aliases/all {}^3 alias graphs on 3 aliases with two-armed wrappers (diamonds and loops through Result / Dictionary value and key), with and without a user", AD_TARGETS)
+    }
+    fn len(&self) -> u64 {
+        AD_TARGETS.pow(3) * 2
+    }
+    fn describe(&self, idx: u64) -> Value {
+        json!({"file": Self::decode(idx).0})
+    }
+    fn run(&self, idx: u64) -> CaseOut {
+        let (text, mentions) = Self::decode(idx);
+        let mut out = CaseOut::new(hash_str(&text));
+        out.validated = 1;
+        out.nontrivial = mentions.iter().any(|m| !m.is_empty());
+        let mut adj = vec![vec![false; 3]; 3];
+        for (i, m) in mentions.iter().enumerate() {
+            for j in m {
+                adj[i][*j] = true;
+            }
+        }
+        let r = reach(3, &adj);
+        let cyclic = (0..3).any(|i| r[i][i]);
+        match compile_texts(&[&text], None) {
+            Err((loc, msg)) => {
+                out.class = "panic".into();
+                out.violate(format!("c05/alias-diamonds/panic@{loc}"), format!("panic at {loc}: {msg}\n--- input ---\n{text}"));
+            }
+            Ok((_, _, diags)) => {
+                let errors: Vec<_> = diags.iter().filter(|d| d.level == "error").collect();
+                out.class = format!("cyclic={cyclic} errors={}", errors.len().min(5));
+                if cyclic && errors.is_empty() {
+                    out.violate("c05/alias-diamonds/alias-loop-not-rejected", format!("an alias reaches itself but the program was accepted\n--- input ---\n{text}"));
+                }
+                // an alias used as a dictionary key may break the key-type rule (E003..E006): that is C04's business
+                let key_rule = |c: &str| matches!(c, "E003" | "E004" | "E005" | "E006");
+                if !cyclic {
+                    if let Some(e) = errors.iter().find(|e| !(text.contains("Dictionary<A") && key_rule(&e.code))) {
+                        out.violate(format!("c05/alias-diamonds/acyclic-aliases-rejected/{}", e.code), format!("no alias reaches itself but: {} {}\n--- input ---\n{text}", e.code, e.message));
+                    }
+                }
+            }
+        }
+        out
+    }
+}
+
 /// All inheritance graphs on 4 interfaces.
 pub struct InheritanceGraphs;
 impl Family for InheritanceGraphs {
@@ -612,5 +702,6 @@ pub fn families(tier: &str) -> Vec<Box<dyn Family>> {
         Box::new(SmallGraphs { n: 3 }),
         Box::new(FourNodes { all_routings: !quick }),
         Box::new(TwoModules),
+        Box::new(AliasDiamonds),
     ]
 }
